@@ -140,3 +140,44 @@ Proof.
     + rewrite Nat2N.inj_succ, N.pow_succ_r' in Hn.
       apply N.div_lt_upper_bound; [lia|exact Hn].
 Qed.
+
+(* ---------- association lists as finite maps ---------- *)
+Section Lookup.
+  Context {V : Type}.
+
+  Fixpoint lookup (k : str) (l : list (str * V)) : option V :=
+    match l with
+    | [] => None
+    | kv :: l' => if str_eqb k (fst kv) then Some (snd kv) else lookup k l'
+    end.
+
+  Lemma lookup_in k v l : NoDup (map fst l) -> (lookup k l = Some v <-> In (k, v) l).
+  Proof.
+    induction l as [|[k' v'] l IH]; intros Hnd; cbn [lookup fst snd].
+    - split; [discriminate|intros []].
+    - inversion Hnd as [|x xs Hnotin Hnd']; subst.
+      destruct (str_eqb k k') eqn:E.
+      + apply str_eqb_eq in E. subst k'. split.
+        * intros H. injection H as ->. left. reflexivity.
+        * intros [H|H]; [injection H as ->; reflexivity|].
+          exfalso. apply Hnotin. change k with (fst (k, v)). apply in_map. exact H.
+      + rewrite (IH Hnd'). split; [intros H; right; exact H|].
+        intros [H|H]; [|exact H]. injection H as -> ->. rewrite str_eqb_refl in E. discriminate.
+  Qed.
+
+  (* Permuted duplicate-free association lists are the same finite map. *)
+  Lemma perm_lookup l1 l2 :
+    NoDup (map fst l1) -> Permutation l1 l2 -> forall k, lookup k l1 = lookup k l2.
+  Proof.
+    intros N1 P k.
+    assert (N2 : NoDup (map fst l2))
+      by (eapply Permutation_NoDup; [apply Permutation_map; exact P|exact N1]).
+    destruct (lookup k l1) as [v|] eqn:E1.
+    - apply (lookup_in _ _ _ N1) in E1. symmetry. apply (lookup_in _ _ _ N2).
+      eapply Permutation_in; [exact P|exact E1].
+    - destruct (lookup k l2) as [v|] eqn:E2; [|reflexivity].
+      apply (lookup_in _ _ _ N2) in E2.
+      assert (In (k, v) l1) as H by (eapply Permutation_in; [apply Permutation_sym; exact P|exact E2]).
+      apply (lookup_in _ _ _ N1) in H. congruence.
+  Qed.
+End Lookup.
